@@ -10,6 +10,9 @@ import LinVerif.Lemmas.C01Reach
 import LinVerif.Lemmas.C01Cleanup
 import LinVerif.Lemmas.C01Pending
 import LinVerif.Lemmas.C01Entries
+import LinVerif.Lemmas.C01Torn
+import LinVerif.Lemmas.C01Family
+import LinVerif.Generated.C04
 import LinVerif.Generated.C01
 
 namespace LinVerif.Props.C01
@@ -198,6 +201,103 @@ theorem failed_table_write_commits_nothing (cfg : Cfg) (items : List Item) (s : 
   subst h1
   exact ⟨rfl, h2, h3, by simp [absOf, h2, h3], by simpa [applyFsList] using hok.inv⟩
 
+/-- **createFamily_crash_atomic.** CreateFamily of a new family is two file-system operations
+(OPTIONS replaced, then the directory made). Kill the process at any cut (before, between, after) and
+reopen: the family is there with its option, or it is not there and `CreateFamily(name, option)`
+succeeds on the reopened store — the family in flight is never "neither present nor creatable". -/
+theorem createFamily_crash_atomic (cfg : Cfg) (items : List Item) (s : St) (m m' : Mem) (name : Nat) (thr : Int)
+    (ops : List FsOp) (k : Nat) (hreach : execAll cfg St.init items = some s) (hm : s.mem = some m)
+    (hc : createFamily m s.disk name thr = some (m', ops)) :
+    let dk := applyFsList s.disk (ops.take k)
+    ∃ mr, (openStore cfg dk).1 = some mr ∧
+      ((mr.info = m'.info ∧ (mr.fam? name).isSome) ∨
+       (mr.info = m.info ∧ (createFamily mr (applyFsList dk (openStore cfg dk).2) name thr).isSome)) := by
+  intro dk
+  have hg := good_execAll (good_init cfg) hreach
+  simp only [Good, hm] at hg
+  obtain ⟨hinv, hcfg⟩ := hg
+  subst hcfg
+  have hok := createFamily_ok hinv hc
+  have famOfInfo : ∀ (mr : Mem) (info : List FamOpt), mr.info = info → (∃ o ∈ info, o.name = name) → (mr.fam? name).isSome := by
+    intro mr info hi ⟨o, ho, hon⟩
+    rw [← hi] at ho
+    simp only [Mem.info, List.mem_map] at ho
+    obtain ⟨f, hf, rfl⟩ := ho
+    simp only [Mem.fam?, List.find?_isSome]
+    exact ⟨f, hf, by simpa using hon⟩
+  -- the new family is named in the state after
+  have hafter : ∃ o ∈ m'.info, o.name = name := by
+    unfold createFamily at hc
+    cases hf : m.fam? name with
+    | some f =>
+      simp only [hf, Option.some.injEq, Prod.mk.injEq] at hc
+      obtain ⟨rfl, _⟩ := hc
+      obtain ⟨hfm, hfn⟩ := fam?_some hf
+      exact ⟨f.opt, by simp only [Mem.info, List.mem_map]; exact ⟨f, hfm, rfl⟩, hfn⟩
+    | none =>
+      simp only [hf] at hc
+      split at hc
+      · simp at hc
+      · simp only [Option.some.injEq, Prod.mk.injEq] at hc
+        obtain ⟨rfl, _⟩ := hc
+        exact ⟨⟨name, m.familySeq + 1, thr⟩, by simp [Mem.info], rfl⟩
+  rcases hok.prefixes k with hcons | hcons
+  · -- consistent with the state before: either the family existed already, or this is the cut before OPTIONS
+    obtain ⟨mr, hmr, _, _, hinfo, _, _⟩ := open_consistent m.cfg dk _ hcons
+    refine ⟨mr, hmr, ?_⟩
+    cases hf : m.fam? name with
+    | some f =>
+      left
+      unfold createFamily at hc
+      simp only [hf, Option.some.injEq, Prod.mk.injEq] at hc
+      obtain ⟨rfl, _⟩ := hc
+      exact ⟨hinfo, famOfInfo mr _ hinfo hafter⟩
+    | none =>
+      right
+      refine ⟨hinfo, ?_⟩
+      have hnone : ∀ fo ∈ m.info, fo.name ≠ name := by
+        intro fo hfo e
+        simp only [Mem.info, List.mem_map] at hfo
+        obtain ⟨f, hfm, rfl⟩ := hfo
+        have := List.find?_eq_none.mp hf f hfm
+        simp only [decide_eq_true_eq] at this
+        exact this e
+      -- the cut is k = 0: a later prefix has the new OPTIONS
+      unfold createFamily at hc
+      simp only [hf] at hc
+      by_cases hdir : (Map.lookup s.disk.famDirs name).isSome = true
+      · simp [hdir] at hc
+      · simp only [hdir, Bool.false_eq_true, if_false, Option.some.injEq, Prod.mk.injEq] at hc
+        obtain ⟨rfl, rfl⟩ := hc
+        have hk0 : dk = s.disk := by
+          cases k with
+          | zero => rfl
+          | succ k =>
+            exfalso
+            have hopts := hcons.opts
+            have : dk.options.getD [] = m.info ++ [⟨name, m.familySeq + 1, thr⟩] := by
+              cases k with
+              | zero => simp [dk, applyFsList, applyFs, Mem.info]
+              | succ k =>
+                simp only [dk, List.take_succ_cons, applyFsList, List.foldl_cons]
+                cases k <;> simp [applyFs, Mem.info, options_frame] <;> (split <;> simp [Mem.info])
+            rw [this] at hopts
+            have := congrArg List.length hopts
+            simp [absOf] at this
+        obtain ⟨vs, hrec, _⟩ := hcons.recov
+        have hfd := open_famDirs_other m.cfg dk vs hrec name (by rw [hcons.opts]; exact hnone)
+        have hmrf : mr.fam? name = none := by
+          simp only [Mem.fam?, List.find?_eq_none, decide_eq_true_eq]
+          intro f hfm e
+          have hinfo' : mr.info = m.info := hinfo
+          have : f.opt ∈ m.info := by rw [← hinfo']; simp only [Mem.info, List.mem_map]; exact ⟨f, hfm, rfl⟩
+          exact hnone _ this e
+        have hd2 : (Map.lookup (applyFsList dk (openStore m.cfg dk).2).famDirs name).isSome = false := by
+          rw [hfd, hk0]; simpa using hdir
+        simp [createFamily, hmrf, hd2]
+  · obtain ⟨mr, hmr, _, _, hinfo, _, _⟩ := open_consistent m.cfg dk _ hcons
+    exact ⟨mr, hmr, Or.inl ⟨hinfo, famOfInfo mr _ hinfo hafter⟩⟩
+
 /-! ## 3. file numbers handed out after recovery are fresh -/
 
 /-- **fileno_fresh.** In every reachable state with the store open (in particular right after any
@@ -327,6 +427,13 @@ theorem tie_entry_writer :
 theorem tie_buffer_sizes :
     Generated.C01.defaultReadBufferSize = 262144 ∧ Generated.C01.defaultWriteBufferSize = 262144 := by decide
 
+/-- the rollup job (family_rollup.go `rollup()`, regenerated by C04's extractor): the source family's
+DeleteRollupFile record is committed BEFORE the target family's reference files are cleaned — the order
+the rollup-bookkeeping records of this model (`editCommit`) are assumed to arrive in -/
+theorem tie_rollup_bookkeeping_order :
+    only ["commitEditLog", "cleanReferenceFiles"] Generated.C04.rollupSteps = ["commitEditLog", "cleanReferenceFiles"] ∧
+    Generated.C04.cleanReferenceSteps = ["CreateDeleteReferenceFile", "commitEditLog"] := by decide
+
 /-- the model's initJournal trace is literally driven by the step list -/
 theorem initJournal_trace (vs : VS) :
     initJournalOps vs = FsOp.createManifest vs.manifestNo ::
@@ -378,6 +485,33 @@ theorem torn_tail_open_deletes_live_manifest :
 theorem torn_tail_store_lost :
     (openStore ⟨2, []⟩ (applyFsList tornDisk (openStore ⟨2, []⟩ tornDisk).2)).1 = none := by decide
 
+/-- what the entry reader does with a torn tail, precisely (outside C01's quantifier):
+(i) a tail that is only a complete length header — the content entirely missing — is dropped silently:
+every earlier record is read, the loop ends cleanly, all earlier commits are durable;
+(ii) a tail whose content is partly present is an error: recovery fails (and see `torn_tail_destroys_store`). -/
+theorem torn_tail_reading (B : Nat) (hB : 1 ≤ B) (recs : List Bytes) (n : Nat) (a : Bytes) :
+    (0 < n → readEntries B (writeEntries recs ++ putUvarint n) = (recs, true)) ∧
+    (a ≠ [] → a.length < n → readEntries B (writeEntries recs ++ (putUvarint n ++ a)) = (recs, false)) :=
+  ⟨torn_tail_header_only B hB recs n, torn_tail_partial_content B hB recs n a⟩
+
+/-- the torn-tail defect for EVERY consistent disk (not only the example above): with an
+error-producing torn record at the end of the live manifest, newStore fails and its deferred cleanup
+removes that very manifest. -/
+theorem torn_tail_destroys_any_store (cfg : Cfg) (d : Disk) (a : Abs) (h : Consistent cfg d a) (j : Int) (mf : Manifest)
+    (hc : d.current = some j) (hl : Map.lookup d.manifests j = some mf) :
+    let dt : Disk := { d with manifests := Map.upsert d.manifests j { mf with torn := true } }
+    (openStore cfg dt).1 = none ∧ FsOp.removeManifest j ∈ (openStore cfg dt).2 :=
+  torn_tail_destroys_store cfg d a h j mf hc hl
+
+/-- a header-only torn tail is "harmless" for the records before it, but when the dropped record is the
+store record of a snapshot (NextFileNumber), recovery starts from the initial numbers: the next file
+number (2) is not above the referenced table (5). Snapshot of one family with file 5, store record lost. -/
+theorem header_only_tail_can_lose_next_number :
+    let d : Disk := ⟨true, some [⟨10, 1, 0⟩], false, some 7, none,
+      [(7, ⟨[marshal ⟨1, [.newFile 0 5 1 2 30]⟩], false⟩)], [(10, [(5, ⟨true, [(1, 1)]⟩)])]⟩
+    ((openStore ⟨2, []⟩ d).1.map (fun m => (m.vs.next, m.vs.fams.map (fun f => f.ver.files.map (fun e => e.1.2)))))
+      = some (2, [[5]]) := by decide
+
 /-- why io.ReadFull matters: with a single `Read` per entry (what a buffered reader looks like it
 could do) an entry that straddles a buffer boundary comes back short and the next entry is misframed.
 Buffer of 4 bytes, two entries of 6 and 2 bytes. -/
@@ -387,5 +521,24 @@ theorem single_read_misframes :
   decide
 
 end Observations
+
+/-! ## 8. counterfactual: CreateFamily with the two steps swapped (directory first, OPTIONS second) -/
+
+namespace Counterfactual
+
+/-- a store with no family, open; `mkdirFam 10` done, the OPTIONS write not yet: the cut between the swapped steps -/
+def afterMkdirOnly : Disk :=
+  applyFs (applyFsList Disk.empty (openStore ⟨2, []⟩ Disk.empty).2) (.mkdirFam 10)
+
+/-- reopening that disk shows no family 10, and CreateFamily(10) fails (the directory exists, no option
+is known): with the swapped order the family in flight is neither present nor creatable. The real
+order (OPTIONS first) is tied by `tie_createFamily_order` and covered by `createFamily_crash_atomic`. -/
+theorem swapped_order_family_stuck :
+    ((openStore ⟨2, []⟩ afterMkdirOnly).1.map (fun m => (m.fam? 10).isSome)) = some false ∧
+    ((openStore ⟨2, []⟩ afterMkdirOnly).1.bind
+      (fun m => createFamily m (applyFsList afterMkdirOnly (openStore ⟨2, []⟩ afterMkdirOnly).2) 10 0)).isNone = true := by
+  decide
+
+end Counterfactual
 
 end LinVerif.Props.C01
